@@ -9,10 +9,11 @@ models the function with its flags, in the order of the C code:
 
     caught path (the innermost context is a catch frame)            uncaught path
       if (in_mudlib_error_handler)                                     if (in_error) longjmp
-        { in_mudlib_error_handler = 0;                                 in_error = 1;
-          set_error_state (handler_limit_state); }        (fix)        if (in_mudlib_error_handler)
-      else                                                               { in_mudlib_error_handler = 0;
-        { limit_state = get_error_state (FULL | COST);                     set_error_state (handler_limit_state); }   (fix)
+        { if (current_error_context == handler's context)              in_error = 1;
+            { in_mudlib_error_handler = 0;                             if (in_mudlib_error_handler)
+              set_error_state (handler_limit_state); } }  (fix)          { if (current_error_context == handler's context)
+      else                                                                 { in_mudlib_error_handler = 0;
+        { limit_state = get_error_state (FULL | COST);                       set_error_state (handler_limit_state); } }   (fix)
           handler_limit_state = limit_state;              (fix)        else
           in_mudlib_error_handler = 1;                                   { limit_state = ...; handler_limit_state = limit_state;
           mudlib_error_handler (err, 1);                                   in_mudlib_error_handler = 1; in_error = 0;
@@ -38,17 +39,25 @@ structure EH where
   savedCost : Bool       -- handler_limit_state & ES_MAX_EVAL_COST
   deriving Repr, DecidableEq
 
-/-- what the mudlib error handler does -/
+/-- what the mudlib error handler does in the end -/
 inductive HBeh
   | returns (catches : Bool)         -- runs to its end (after completing a catch () / safe apply or not)
-  | raises (catchesFirst : Bool)     -- raises an ordinary error of its own
-  | expires (catchesFirst : Bool)    -- runs out of evaluation cost
+  | raises (catchesFirst : Bool)     -- raises an ordinary error of its own, outside any catch of its own
+  | expires (catchesFirst : Bool)    -- runs out of evaluation cost, outside any catch of its own
+  deriving Repr, DecidableEq
+
+/-- what it does on the way (integration with C05's cd4f16a: `if (current_error_context == mudlib_error_handler_context)`
+    - an error inside a catch () of the handler itself is received by that catch, the handler goes on) -/
+inductive HEv
+  | catchOk                          -- a catch () / safe apply of the handler completes without an error
+  | errInCatch (expiry : Bool)       -- an error (ordinary, or the budget running out) inside a catch () of the handler
   deriving Repr, DecidableEq
 
 /-- a catch () or safe apply completing inside the handler: pop_context → clear_error_state -/
 def EH.afterCatch (s : EH) (c : Bool) : EH := if c then { s with full := false, cost := false } else s
 
-/-- the nested invocation (an error raised by the handler itself): `restore` is the fix -/
+/-- the nested invocation for an error that leaves the handler (the innermost context is the one the handler was
+    started under: `current_error_context == mudlib_error_handler_context`): `restore` is the fix -/
 def nestedHandler (restore : Bool) (ctxIsCatch : Bool) (s : EH) : EH :=
   if ctxIsCatch then
     -- caught path, in_mudlib_error_handler is set
@@ -60,13 +69,21 @@ def nestedHandler (restore : Bool) (ctxIsCatch : Bool) (s : EH) : EH :=
     let s := if restore then { s with full := s.full || s.savedFull, cost := s.cost || s.savedCost } else s
     { s with inError := false }
 
-/-- error_handler () entered from an evaluation (no handler running); the result is the state at the longjmp -/
-def errorHandlerW (restore : Bool) (ctxIsCatch : Bool) (beh : HBeh) (s : EH) : EH :=
-  let limFull := s.full
-  let limCost := s.cost
-  let s := { s with savedFull := limFull, savedCost := limCost, inMudlib := true }
-  let s := if ctxIsCatch then s else { s with inError := false }
-  match beh with
+/-- one event inside the running handler: `inl` = the handler goes on, `inr` = it was abandoned (state at the longjmp).
+    An error inside the handler's own catch enters error_handler () on the caught path with a different innermost
+    context: nothing is touched, the longjmp goes to the handler's do_catch, which re-raises when a limit bit is set
+    (pop_context, the bit set again, error: now towards the context the handler was started under) and otherwise
+    completes (pop_context clears the state). -/
+def stepEv (restore : Bool) (ctxIsCatch : Bool) (s : EH) : HEv → Sum EH EH
+  | .catchOk => .inl { s with full := false, cost := false }
+  | .errInCatch e =>
+    let s := { s with cost := s.cost || e }
+    if s.cost then .inr (nestedHandler restore ctxIsCatch { s with full := false, cost := true })
+    else if s.full then .inr (nestedHandler restore ctxIsCatch { s with full := true, cost := false })
+    else .inl { s with full := false, cost := false }
+
+/-- how the handler ends -/
+def finish (restore : Bool) (ctxIsCatch : Bool) (limFull limCost : Bool) (s : EH) : HBeh → EH
   | .returns c =>
     let s := s.afterCatch c
     { s with inMudlib := false, inError := false, full := s.full || limFull, cost := s.cost || limCost }
@@ -75,45 +92,136 @@ def errorHandlerW (restore : Bool) (ctxIsCatch : Bool) (beh : HBeh) (s : EH) : E
     -- eval_instruction: set_error_state (ES_MAX_EVAL_COST) before error ()
     nestedHandler restore ctxIsCatch { (s.afterCatch c) with cost := true }
 
+def runHandler (restore : Bool) (ctxIsCatch : Bool) (limFull limCost : Bool) : List HEv → HBeh → EH → EH
+  | [], beh, s => finish restore ctxIsCatch limFull limCost s beh
+  | e :: es, beh, s =>
+    match stepEv restore ctxIsCatch s e with
+    | .inl s1 => runHandler restore ctxIsCatch limFull limCost es beh s1
+    | .inr r => r
+
+/-- error_handler () entered from an evaluation (no handler running); the result is the state at the longjmp -/
+def errorHandlerW (restore : Bool) (ctxIsCatch : Bool) (evs : List HEv) (beh : HBeh) (s : EH) : EH :=
+  let s1 := { s with savedFull := s.full, savedCost := s.cost, inMudlib := true }
+  let s2 := if ctxIsCatch then s1 else { s1 with inError := false }
+  runHandler restore ctxIsCatch s.full s.cost evs beh s2
+
 /-- the code as it is now -/
-def errorHandler : Bool → HBeh → EH → EH := errorHandlerW true
+def errorHandler : Bool → List HEv → HBeh → EH → EH := errorHandlerW true
 
 /-- the code before fix d13165e -/
-def errorHandlerOld : Bool → HBeh → EH → EH := errorHandlerW false
+def errorHandlerOld : Bool → List HEv → HBeh → EH → EH := errorHandlerW false
 
-/-- every state error_handler () can be entered in from an evaluation -/
-def allEH : List EH :=
-  [false, true].flatMap fun a => [false, true].flatMap fun b => [false, true].flatMap fun c => [false, true].map fun d =>
-    { full := a, cost := b, inMudlib := false, inError := false, savedFull := c, savedCost := d }
+/-- while the handler runs: the flag is set, in_error is clear, and handler_limit_state holds the bits of the raise -/
+def Running (limFull limCost : Bool) (s : EH) : Prop :=
+  s.inMudlib = true ∧ s.inError = false ∧ s.savedFull = limFull ∧ s.savedCost = limCost
 
-def allBeh : List HBeh :=
-  [.returns false, .returns true, .raises false, .raises true, .expires false, .expires true]
+/-- the state at the longjmp: the bits of the raise are set, both flags are clear -/
+def Landed (limFull limCost : Bool) (r : EH) : Prop :=
+  (limFull = true → r.full = true) ∧ (limCost = true → r.cost = true) ∧ r.inMudlib = false ∧ r.inError = false
 
-/-- the receiving context sees every limit bit the error was raised with, and the flags are back to rest -/
-def keepsOk (f : Bool → HBeh → EH → EH) : Bool :=
-  [false, true].all fun ctx => allBeh.all fun beh => allEH.all fun s =>
-    let r := f ctx beh s
-    (!s.full || r.full) && (!s.cost || r.cost) && !r.inMudlib && !r.inError
+theorem nested_landed (ctx lf lc : Bool) (s : EH) (h : Running lf lc s) : Landed lf lc (nestedHandler true ctx s) := by
+  obtain ⟨a, b, c, d, e, f⟩ := s
+  obtain ⟨h1, h2, h3, h4⟩ := h
+  simp only at h1 h2 h3 h4
+  subst h1 h2 h3 h4
+  cases ctx <;> cases a <;> cases b <;> cases e <;> cases f <;> simp [nestedHandler, Landed]
 
-/-- **handler_keeps_limit_state**: whatever the master's error handler does - return, complete a catch, raise an error
-    of its own, run out of budget, before or after a catch - and whichever kind of context receives the error, the
-    limit bits of `error_state` at the raise are set when the longjmp is made (what `raise` in Model.lean assumes), and
-    in_error / in_mudlib_error_handler are clear again. -/
-theorem handler_keeps_limit_state : keepsOk errorHandler = true := by decide
+theorem finish_landed (ctx lf lc : Bool) (s : EH) (beh : HBeh) (h : Running lf lc s) :
+    Landed lf lc (finish true ctx lf lc s beh) := by
+  have hk : ∀ (c : Bool), Running lf lc (s.afterCatch c) := by
+    intro c; cases c <;> simpa [EH.afterCatch, Running] using h
+  cases beh with
+  | returns c =>
+    have := hk c
+    obtain ⟨_, _, _, _⟩ := this
+    cases lf <;> cases lc <;> simp [finish, Landed]
+  | raises c => exact nested_landed ctx lf lc _ (hk c)
+  | expires c =>
+    apply nested_landed
+    have := hk c
+    simpa [Running] using this
 
-/-- in the form the machine uses it: for each state, behaviour and context -/
+theorem step_inl (ctx lf lc : Bool) (s s1 : EH) (e : HEv) (h : Running lf lc s)
+    (he : stepEv true ctx s e = .inl s1) : Running lf lc s1 := by
+  cases e with
+  | catchOk =>
+    simp only [stepEv] at he
+    injection he with he
+    subst he
+    simpa [Running] using h
+  | errInCatch x =>
+    unfold stepEv at he
+    simp only at he
+    split at he
+    · cases he
+    · split at he
+      · cases he
+      · injection he with he
+        subst he
+        simpa [Running] using h
+
+theorem step_inr (ctx lf lc : Bool) (s r : EH) (e : HEv) (h : Running lf lc s)
+    (he : stepEv true ctx s e = .inr r) : Landed lf lc r := by
+  cases e with
+  | catchOk => simp only [stepEv] at he; cases he
+  | errInCatch x =>
+    unfold stepEv at he
+    simp only at he
+    split at he
+    · injection he with he
+      subst he
+      exact nested_landed ctx lf lc _ (by simpa [Running] using h)
+    · split at he
+      · injection he with he
+        subst he
+        exact nested_landed ctx lf lc _ (by simpa [Running] using h)
+      · cases he
+
+theorem run_landed (ctx lf lc : Bool) (beh : HBeh) : ∀ (evs : List HEv) (s : EH), Running lf lc s →
+    Landed lf lc (runHandler true ctx lf lc evs beh s) := by
+  intro evs
+  induction evs with
+  | nil => intro s h; exact finish_landed ctx lf lc s beh h
+  | cons e rest ih =>
+    intro s h
+    unfold runHandler
+    split
+    · rename_i s1 heq; exact ih s1 (step_inl ctx lf lc s s1 e h heq)
+    · rename_i r heq; exact step_inr ctx lf lc s r e h heq
+
+/-- **handler_keeps_limit_state**: whatever the master's error handler does - any sequence of catches completing and of
+    errors (ordinary, or the budget running out) inside catches of its own, then a return, an error of its own or the
+    budget running out, before or after a catch - and whichever kind of context receives the error: the limit bits of
+    `error_state` at the raise are set when the longjmp to that context is made (what `raise` in Model.lean assumes),
+    and in_error / in_mudlib_error_handler are clear again. -/
+theorem handler_keeps_limit_state (ctx : Bool) (evs : List HEv) (beh : HBeh) (s : EH) (h2 : s.inError = false) :
+    ((s.full = true → (errorHandler ctx evs beh s).full = true) ∧
+     (s.cost = true → (errorHandler ctx evs beh s).cost = true)) ∧
+    (errorHandler ctx evs beh s).inMudlib = false ∧ (errorHandler ctx evs beh s).inError = false := by
+  have hr : Running s.full s.cost
+      (if ctx then { s with savedFull := s.full, savedCost := s.cost, inMudlib := true }
+       else { ({ s with savedFull := s.full, savedCost := s.cost, inMudlib := true } : EH) with inError := false }) := by
+    cases ctx <;> simp [Running, h2]
+  have := run_landed ctx s.full s.cost beh evs _ hr
+  exact ⟨⟨this.1, this.2.1⟩, this.2.2.1, this.2.2.2⟩
+
+/-- the same for the handlers the harness runs on the real driver (modes 0..3 of /c04/master.c) -/
 theorem handler_keeps_limit_state_each (ctx : Bool) (beh : HBeh) (full cost sf sc : Bool) :
     let s : EH := { full := full, cost := cost, inMudlib := false, inError := false, savedFull := sf, savedCost := sc }
-    (full = true → (errorHandler ctx beh s).full = true) ∧ (cost = true → (errorHandler ctx beh s).cost = true) := by
-  cases ctx <;> cases beh <;> rename_i c <;> cases c <;> cases full <;> cases cost <;> cases sf <;> cases sc <;> decide
+    (full = true → (errorHandler ctx [] beh s).full = true) ∧ (cost = true → (errorHandler ctx [] beh s).cost = true) := by
+  intro s
+  exact (handler_keeps_limit_state ctx [] beh s rfl).1
+
+/-- an evaluation-cost error has just been raised, no handler is running -/
+def costRaised : EH :=
+  { full := false, cost := true, inMudlib := false, inError := false, savedFull := false, savedCost := false }
 
 /-- before the fix: a handler that completes a catch () and then raises an error loses the evaluation-cost bit, on both
     paths (caught: catch (spin ()) completes; uncaught: safe_apply does not cut its caller down to one tick) -/
 theorem handler_lost_limit_state_before_fix :
-    keepsOk errorHandlerOld = false ∧
-    (errorHandlerOld true (.raises true) { full := false, cost := true, inMudlib := false, inError := false,
-                                            savedFull := false, savedCost := false }).cost = false ∧
-    (errorHandlerOld false (.raises true) { full := false, cost := true, inMudlib := false, inError := false,
-                                             savedFull := false, savedCost := false }).cost = false := by decide
+    (errorHandlerOld true [] (.raises true) costRaised).cost = false ∧
+    (errorHandlerOld false [.catchOk] (.raises false) costRaised).cost = false ∧
+    (errorHandler true [.catchOk, .errInCatch false] (.raises true) costRaised).cost = true := by
+  decide
 
 end NV.C04
